@@ -57,6 +57,17 @@ CLAIMED: dict[str, tuple[str, str, str, str]] = {
             "Names are atoms in TLA+ (prefix relation tabulated); pattern forms limited to the documented ones; "
             "`**/name` at depth 0 carries no verdict; symlink-free trees; visiting observed through magic-numbers.",
             TECH),
+    "C06": ("DESIGN.md §5 C06",
+            "spec/Run.tla models one CLI run (parse, path validation, config loading, lint, render, exit) with "
+            "nine classes of usage error and is model-checked exhaustively (ExitRule, NoOutputOnError, "
+            "termination); every (fault, input class) case is executed for all 20 linter commands in text, json "
+            "and sarif as real processes, including hostile inputs (non-ASCII identifiers, file names with "
+            "quotes, backslash, newline and an invalid UTF-8 byte, several identical findings on one line); "
+            "RunTrace.tla judges each triple: exit code law, equal bags across renderings, JSON total, "
+            "well-formedness flags.",
+            "UTF-8/JSON decoding and the structural SARIF checks are computed by the harness and enter the "
+            "trace as booleans; SARIF is not validated against the official schema (not available offline).",
+            TECH),
 }
 
 REASON_NOT_YET = ("no check registered yet in this build; the TLA+ technique applies (see DESIGN.md §5) "
